@@ -1,7 +1,9 @@
 """`__all__ = (...)` (a tuple) is emitted as a list; stubtest reports the type difference.
 
 Exit status 1 = defect present, 0 = absent, 2 = inconclusive (preconditions of the input failed).
-Mechanism keys: stubtest:semantic:__all__:variable differs from runtime type tuple[...]"""
+Mechanism keys:
+  stubtest:semantic:__all__:variable differs from runtime type tuple[...]
+"""
 import os
 import sys
 
